@@ -309,6 +309,9 @@ def _cmp(a, b, pyop, zop):
         return _nr_cmp(zop, a, b)
     a, b = _num2(a, b)
     if not isz(a) and not isz(b):
+        if not isinstance(a, (int, Fraction)) or not isinstance(b, (int, Fraction)):
+            # Python's own comparison of two engine objects would silently mean identity / nonsense: refuse instead
+            raise Unsupported("comparison of non-numeric values %r / %r" % (type(a).__name__, type(b).__name__))
         return pyop(a, b)
     za, zb = _zz(a, b)
     return zop(za, zb)
